@@ -28,12 +28,12 @@ type Wire struct {
 	LastRequest []byte
 	Requests    int
 	// Hook, if set, is called at the entry of RoundTrip (scheduling point for C18).
-	Hook func(method, path string)
+	Hook func(ctx context.Context, method, path string)
 }
 
 func (w *Wire) RoundTrip(req *http.Request) (*http.Response, error) {
 	if w.Hook != nil {
-		w.Hook(req.Method, req.URL.Path)
+		w.Hook(req.Context(), req.Method, req.URL.Path)
 	}
 	var buf bytes.Buffer
 	if err := req.Write(&buf); err != nil {
@@ -112,7 +112,7 @@ type MemFS struct {
 	mu    sync.Mutex
 	Files map[string]*MemFile // by path as given
 	Calls []Call
-	Hook  func(method, path string)
+	Hook  func(ctx context.Context, method, path string)
 }
 
 type MemFile struct {
@@ -122,9 +122,9 @@ type MemFile struct {
 
 func NewMemFS() *MemFS { return &MemFS{Files: map[string]*MemFile{}} }
 
-func (m *MemFS) rec(method, p string, arg interface{}) {
+func (m *MemFS) rec(ctx context.Context, method, p string, arg interface{}) {
 	if m.Hook != nil {
-		m.Hook(method, p)
+		m.Hook(ctx, method, p)
 	}
 	m.mu.Lock()
 	m.Calls = append(m.Calls, Call{method, p, arg})
@@ -160,7 +160,7 @@ func (m *MemFS) lookup(name string) *MemFile {
 }
 
 func (m *MemFS) Open(ctx context.Context, name string) (io.ReadCloser, error) {
-	m.rec("Open", name, nil)
+	m.rec(ctx, "Open", name, nil)
 	m.mu.Lock()
 	defer m.mu.Unlock()
 	f := m.lookup(name)
@@ -172,7 +172,7 @@ func (m *MemFS) Open(ctx context.Context, name string) (io.ReadCloser, error) {
 }
 
 func (m *MemFS) Stat(ctx context.Context, name string) (*webdav.FileInfo, error) {
-	m.rec("Stat", name, nil)
+	m.rec(ctx, "Stat", name, nil)
 	m.mu.Lock()
 	defer m.mu.Unlock()
 	f := m.lookup(name)
@@ -184,7 +184,7 @@ func (m *MemFS) Stat(ctx context.Context, name string) (*webdav.FileInfo, error)
 }
 
 func (m *MemFS) ReadDir(ctx context.Context, name string, recursive bool) ([]webdav.FileInfo, error) {
-	m.rec("ReadDir", name, recursive)
+	m.rec(ctx, "ReadDir", name, recursive)
 	m.mu.Lock()
 	defer m.mu.Unlock()
 	f := m.lookup(name)
@@ -217,7 +217,7 @@ func (m *MemFS) ReadDir(ctx context.Context, name string, recursive bool) ([]web
 
 func (m *MemFS) Create(ctx context.Context, name string, body io.ReadCloser, opts *webdav.CreateOptions) (*webdav.FileInfo, bool, error) {
 	b, err := io.ReadAll(body)
-	m.rec("Create", name, map[string]interface{}{"data": string(b), "if_match": string(opts.IfMatch), "if_none_match": string(opts.IfNoneMatch)})
+	m.rec(ctx, "Create", name, map[string]interface{}{"data": string(b), "if_match": string(opts.IfMatch), "if_none_match": string(opts.IfNoneMatch)})
 	if err != nil {
 		return nil, false, err
 	}
@@ -230,7 +230,7 @@ func (m *MemFS) Create(ctx context.Context, name string, body io.ReadCloser, opt
 }
 
 func (m *MemFS) RemoveAll(ctx context.Context, name string, opts *webdav.RemoveAllOptions) error {
-	m.rec("RemoveAll", name, map[string]interface{}{"if_match": string(opts.IfMatch), "if_none_match": string(opts.IfNoneMatch)})
+	m.rec(ctx, "RemoveAll", name, map[string]interface{}{"if_match": string(opts.IfMatch), "if_none_match": string(opts.IfNoneMatch)})
 	m.mu.Lock()
 	defer m.mu.Unlock()
 	f := m.lookup(name)
@@ -248,7 +248,7 @@ func (m *MemFS) RemoveAll(ctx context.Context, name string, opts *webdav.RemoveA
 }
 
 func (m *MemFS) Mkdir(ctx context.Context, name string) error {
-	m.rec("Mkdir", name, nil)
+	m.rec(ctx, "Mkdir", name, nil)
 	m.mu.Lock()
 	defer m.mu.Unlock()
 	if m.lookup(name) != nil {
@@ -259,7 +259,7 @@ func (m *MemFS) Mkdir(ctx context.Context, name string) error {
 }
 
 func (m *MemFS) Copy(ctx context.Context, name, dest string, options *webdav.CopyOptions) (bool, error) {
-	m.rec("Copy", name, map[string]interface{}{"dest": dest, "options": *options})
+	m.rec(ctx, "Copy", name, map[string]interface{}{"dest": dest, "options": *options})
 	m.mu.Lock()
 	defer m.mu.Unlock()
 	f := m.lookup(name)
@@ -277,7 +277,7 @@ func (m *MemFS) Copy(ctx context.Context, name, dest string, options *webdav.Cop
 }
 
 func (m *MemFS) Move(ctx context.Context, name, dest string, options *webdav.MoveOptions) (bool, error) {
-	m.rec("Move", name, map[string]interface{}{"dest": dest, "options": *options})
+	m.rec(ctx, "Move", name, map[string]interface{}{"dest": dest, "options": *options})
 	m.mu.Lock()
 	defer m.mu.Unlock()
 	f := m.lookup(name)
